@@ -11,6 +11,10 @@ macro_rules! dispatch {
     ($id:expr, $f:ident, $($arg:expr),*) => {
         match $id {
             "C01" => engine::$f::<c01::C01>($($arg),*),
+            "C02" => engine::$f::<c02::C02>($($arg),*),
+            "C17" => engine::$f::<c17::C17>($($arg),*),
+            "C18" => engine::$f::<c18::C18>($($arg),*),
+            "C19" => engine::$f::<c19::C19>($($arg),*),
             _ => { eprintln!("unknown property {}", $id); std::process::exit(2) }
         }
     };
